@@ -4,9 +4,12 @@ CONSTANTS
   MaxFaults = 2
   DeadWriterStaysDead = TRUE
   KillUpdaterOnSaveFail = TRUE
+  PipeCap = 2
+  KillDropsReceiver = TRUE
 INVARIANT OkCommitIsComplete
 INVARIANT LastCommitIntact
 INVARIANT DiskIsSomeCommit
 INVARIANT RegistersMatchDisk
+INVARIANT NoStuckProducer
 CONSTRAINT Bound
 CHECK_DEADLOCK FALSE
